@@ -1720,9 +1720,15 @@ func (n *node) spawn(factory gen.ProcessFactory, options gen.ProcessOptionsExtra
 		linkTargets, _ := n.targetManager.CleanupConsumer(p.pid)
 		for _, target := range linkTargets {
 			if pid, ok := target.(gen.PID); ok {
+				// one exit signal is enough if the child has linked itself
+				// with this process as well
+				n.targetManager.RemoveLink(pid, p.pid)
 				n.sendExitMessage(p.pid, pid, messageExit)
 			}
 		}
+		// notify those that linked themselves with this process or monitor it
+		// (children spawned with the LinkParent option only)
+		n.RouteTerminatePID(p.pid, err)
 
 		// terminate meta process that spawned during initialization
 
